@@ -1,32 +1,53 @@
 import GqlModel.Format.Model
+import GqlModel.Parser.Schema
 import GqlProofs.Lexer.Progress
 import GqlProofs.Format.Description
 import GqlProofs.Format.BlockLex
+import GqlProofs.Format.FmtSchemaTokens
+import GqlProofs.Format.NormPreserveSchema
+import GqlProofs.Props.C06
 /-
-  Property C13 — format ∘ load round trip for schemas.  Proved here: the description part.
+  Property C13 — format ∘ load round trip for schemas.
 
-  `WriteDescription` writes a description `d` as a block string whose raw text is
-  `descBody ind d` (`C13_description_text`; `ind` = the current indentation).  Reading it back
-  gives `d` again exactly under two independent conditions:
+  DESCRIPTIONS.  `WriteDescription` writes a description `d` as a block string whose raw text is
+  `descBody ind (escapeTriple d)` (`C13_description_text`; `ind` = the current indentation) when
+  `blockStringRepresentable d`, and as a quoted string otherwise (`C13_description_text_quoted`).
+  * `C13_description_roundtrip`: for `BlockRepresentable d` and an indentation of spaces and tabs,
+    `blockStringValue (descBody ind d) = d`; outside the class the value differs
+    (`C13_description_leading_blank_counterexample`, `…_trailing_newline_…`, `…_indented_…`: R13b,
+    the reason for the quoted fallback).
+  * `C13_description_token`: the lexer model reads the block form — every `"""` escaped — back as
+    ONE BlockString token with value `d` (well-formed UTF-8, indentation of spaces and tabs).
+    `C13_description_lexes` is the older statement for texts without `"""`;
+    `C13_description_triple_quote_counterexample` shows what happened without the escape (R13a).
 
-  (1) `BlockRepresentable d` (`C13_description_roundtrip`): the first and the last line of `d`
-      are not blank and some non-blank line is not indented.  Then — for every indentation made
-      of spaces and tabs — `blockStringValue (descBody ind d) = d`.  Outside the class the value
-      differs (`C13_description_leading_blank_counterexample`, `…_trailing_newline_…`,
-      `…_indented_…`): finding R13b.
-  (2) the lexer must get through the raw text unchanged (`C13_description_lexes`): the text is
-      well-formed UTF-8 without `"""`, without CR and without control characters other than TAB
-      and LF (`blockSafe`).  A `"""` inside the description ends the block string early
-      (`C13_description_triple_quote_counterexample`): finding R13a.
+  THE BRIDGE formatter text → tokens for type-system documents (`FormatSchemaDocument`), for every
+  configuration whose indentation consists of spaces and tabs:
+    `C13_format_tokens_description … _argument_definition_list … _field_definition … _field_list …
+     _enum_value_list … _definition … _directive_definition … _schema_definitions … _schema_extensions`
+  and the document theorem
+    `C13_format_tokens : tokensOf (fmtSchemaDoc cfg d) = some (printSchemaLongD descTok (normSchemaDoc cfg d))`.
+  `printSchemaLongD descTok` is the unparser of C06 with the five definition lists one after the
+  other (the formatter's order) and each description as the token the formatter writes (BlockString
+  when representable, else String).  `normSchemaDoc cfg` is what the formatter deliberately does
+  not keep: block-string VALUES become string values; `WithoutDescription` drops descriptions;
+  without `WithBuiltin` built-in definitions and directive definitions of source 0 are skipped;
+  all `schema { … }` definitions are MERGED into one, likewise all `extend schema`.
 
-  Full-strength statements not reached (need the parser and loader models of the other layers):
+  THE ROUND TRIP with C06's parse ∘ print theorem (`C06_parse_print_items`):
+    `C13_format_roundtrip : parseSchemaSrc 0 src b (fmtSchemaDoc cfg d) = .ok d' ∧
+        d'.erasePos = (setBuiltIn b (normSchemaDoc cfg d)).erasePos`
+    `C13_format_roundtrip_parsed`: the same for every document the parser returned.
 
-    theorem C13_doc_roundtrip … : parseSchema (fmtSchemaDoc cfg d) = ok d' ∧ d' ≃ d
-    theorem C13_schema_roundtrip … : load (fmtSchema cfg s) = ok s' ∧ s' ≃ s
-    theorem C13_fixpoint … : fmtSchemaDoc cfg d' = fmtSchemaDoc cfg d
-    theorem C13_roots_preserved … (false on the unchanged tree: R13c and the dropped default-named roots)
+  NOT proved (kept so that nothing is weakened silently):
+    theorem C13_doc_fixpoint … : fmtSchemaDoc cfg d' = fmtSchemaDoc cfg d
+      — false as stated: with `WithoutDescription` the comma after an argument that has a description
+        is skipped (KNOWN FINDING sd:not-a-fixpoint); moreover the formatter looks at positions
+        (`fieldSuppressed`: line 0; built-in source 0), so it is not invariant under `erasePos`.
+    theorem C13_schema_roundtrip … : load (fmtSchema cfg s) = ok s' ∧ s' ≃ s   (loaded schemas:
+      `FormatSchema`; needs the loader model; R13e: `Schema.Description` is never printed)
 -/
-open Gql Gql.Lexer Gql.Format
+open Gql Gql.Lexer Gql.Format Gql.Grammar Gql.Print Gql.Parser
 
 /-- What `writeDescription` writes for a non-empty description that a block string can represent
     (`blockStringRepresentable`, the test the repaired formatter makes): the separator that any
@@ -118,3 +139,161 @@ example : BlockRepresentable [97, 34, 10, 32, 32, 98, 92, 10, 10, 99] := by deci
 example : blockSafe ([10, 32, 32] ++ [97, 34, 10, 32, 32] ++ [32, 32, 98, 92, 10, 32, 32, 10, 32, 32, 99, 10, 32, 32]) = true := by decide
 example : descBody [32, 32] [97, 34, 10, 32, 32, 98, 92, 10, 10, 99]
     = utf8Encode ([10, 32, 32] ++ [97, 34, 10, 32, 32] ++ [32, 32, 98, 92, 10, 32, 32, 10, 32, 32, 99, 10, 32, 32]) := by decide
+
+/-! ### the description token, with `"""` inside -/
+
+/-- The lexer model reads what `WriteDescription` writes in block form — `"""`, the indented lines
+    with every `"""` escaped, `"""` — as ONE BlockString token whose value is the description,
+    whatever separator or punctuator follows (the formatter writes a newline). -/
+theorem C13_description_token (ind s : Bytes) (hi : AllBlank ind) (hv : strRaw s = true)
+    (hrep : blockStringRepresentable s = true) (post : Bytes) (hpost : Follow true post) (c : Cur) :
+    ∃ t c', readToken (tripleQuote ++ descBody ind (escapeTriple s) ++ tripleQuote ++ post) c = .tok t post c' ∧
+      Tok.ofToken t = { kind := .blockString, value := s } := by
+  obtain ⟨t, c', h1, h2, _⟩ := tokText_blockDescription ind s hi hv hrep post hpost c
+  exact ⟨t, c', h1, h2⟩
+
+/-- non-vacuity: a description with `"""` and a backslash in front of quotes -/
+example : blockStringRepresentable [97, 34, 34, 34, 34, 10, 92, 34, 34, 34, 98] = true := by decide
+example : strRaw [97, 34, 34, 34, 34, 10, 92, 34, 34, 34, 98] = true := by decide
+
+/-! ### the bridge: formatter text → tokens -/
+
+section Bridge
+variable {cfg : Cfg} (hind : AllBlank cfg.indent)
+include hind
+
+theorem C13_format_tokens_description {w : W} {ts : List Tok} (s : Bytes) (h : I false w ts) (hs : strRaw s = true) :
+    I false (writeDescription cfg s w) (ts ++ descTok (normDesc cfg s)) := T_description hind s h hs
+
+theorem C13_format_tokens_argument_definition_list {g : Bool} {w : W} {ts : List Tok} (ds : List ArgDef)
+    (h : I g w ts) (hd : ds.all argDefOk = true) :
+    I g (formatArgumentDefinitionList cfg ds w) (ts ++ printArgDefsD descTok (ds.map (normArgDef cfg))) :=
+  T_argDefList hind ds h hd
+
+theorem C13_format_tokens_field_definition {w : W} {ts : List Tok} (f : FieldDef) (h : LexTo w.text ts false)
+    (hf : fieldDefOk f = true) :
+    LexTo (formatFieldDefinition cfg f w).text (ts ++ genFieldD descTok (normFieldDef cfg f)) false :=
+  T_fieldDef hind f h hf
+
+theorem C13_format_tokens_field_list {g : Bool} {w : W} {ts : List Tok} (fs : List FieldDef) (h : I g w ts)
+    (hf : fs.all fieldDefOk = true) :
+    I g (formatFieldList cfg fs w) (ts ++ printBlock (genFieldD descTok) (fs.map (normFieldDef cfg))) :=
+  T_fieldList hind fs h hf
+
+theorem C13_format_tokens_enum_value_list {g : Bool} {w : W} {ts : List Tok} (es : List EnumValDef) (h : I g w ts)
+    (he : es.all enumValOk = true) :
+    I g (formatEnumValueList cfg es w) (ts ++ printBlock (printEnumValD descTok) (es.map (normEnumVal cfg))) :=
+  T_enumValueList hind es h he
+
+/-- `FormatDefinition` (type definition): nothing for a skipped built-in, else the unparse -/
+theorem C13_format_tokens_definition {w : W} {ts : List Tok} (d : Definition) (h : LexTo w.text ts false)
+    (hd : defOk d = true) :
+    LexTo (formatDefinition cfg false d w).text
+      (ts ++ (if keepDef cfg d = true then printDefinitionD descTok (normDef cfg d) else [])) false := by
+  have hsh : shapeOk d = true := by
+    have := hd; simp only [defOk, Bool.and_eq_true] at this; exact this.2
+  have := T_definition hind false d h hd (by simp)
+  simpa [printDefinitionD, genDefBody_eq cfg d hsh, normDef_desc, normDef_kind] using this
+
+/-- `FormatDefinition` (type extension) -/
+theorem C13_format_tokens_extension {w : W} {ts : List Tok} (d : Definition) (h : LexTo w.text ts false)
+    (hd : extOk d = true) :
+    LexTo (formatDefinition cfg true d w).text
+      (ts ++ (if keepDef cfg d = true then printExtensionD descTok (normDef cfg d) else [])) false := by
+  simp only [extOk, Bool.and_eq_true, List.isEmpty_iff] at hd
+  have hsh : shapeOk d = true := by
+    have := hd.1; simp only [defOk, Bool.and_eq_true] at this; exact this.2
+  have := T_definition hind true d h hd.1 (fun _ => hd.2)
+  simpa [printExtensionD, genDefBody_eq cfg d hsh, normDef_kind] using this
+
+theorem C13_format_tokens_directive_definition {w : W} {ts : List Tok} (d : DirectiveDef) (h : LexTo w.text ts false)
+    (hd : dirDefOk d = true) :
+    LexTo (formatDirectiveDefinition cfg srcZeroBuiltIn d w).text
+      (ts ++ (if keepDirectiveDef cfg d = true then printDirectiveDefD descTok (normDirectiveDef cfg d) else []))
+      false := T_directiveDef hind d h hd
+
+theorem C13_format_tokens_schema_definitions {w : W} {ts : List Tok} (ds : List SchemaDef) (h : LexTo w.text ts false)
+    (hd : ds.all schemaDefOk = true) :
+    LexTo (formatSchemaDefinitionList cfg false ds w).text
+      (ts ++ ((mergeSchemaDefs cfg ds).map (printSchemaDefD descTok)).flatten) false := T_schemaDefs hind ds h hd
+
+theorem C13_format_tokens_schema_extensions {w : W} {ts : List Tok} (ds : List SchemaDef) (h : LexTo w.text ts false)
+    (hd : ds.all schemaExtOk = true) :
+    LexTo (formatSchemaDefinitionList cfg true ds w).text
+      (ts ++ ((mergeSchemaDefs cfg ds).map printSchemaExt).flatten) false := T_schemaExts hind ds h hd
+
+/-- THE BRIDGE for type-system documents: the text `FormatSchemaDocument` writes lexes (comments and
+    EOF aside) to exactly the tokens of the normalised document, the five lists one after the
+    other, each description as the token the formatter chose. -/
+theorem C13_format_tokens (d : SchemaDoc) (hd : FormattableSchema d) :
+    tokensOf (fmtSchemaDoc cfg d) = some (printSchemaLongD descTok (normSchemaDoc cfg d)) :=
+  tokensOf_fmtSchemaDoc hind d hd
+
+/-- THE ROUND TRIP: the formatted text of a formattable, printable type-system document parses (as
+    any source `src` with any `BuiltIn` flag `b`), and the result is the normalised document up to
+    positions. -/
+theorem C13_format_roundtrip (d : SchemaDoc) (hd : FormattableSchema d) (hok : DocAll ItemOK d)
+    (src : Nat) (b : Bool) :
+    ∃ d', parseSchemaSrc 0 src b (fmtSchemaDoc cfg d) = .ok d' ∧
+      d'.erasePos = (setBuiltIn b (normSchemaDoc cfg d)).erasePos := by
+  have htok := C13_format_tokens hind d hd
+  rw [printSchemaLongD_items] at htok
+  obtain ⟨d', h1, h2⟩ := C06_parse_print_items descKind_ok (itemsOf (normSchemaDoc cfg d))
+    (itemOK_norm cfg d hok) src b (fmtSchemaDoc cfg d) htok
+  refine ⟨d', h1, ?_⟩
+  rw [h2]
+  have : (itemsOf (normSchemaDoc cfg d)).foldl SchemaDoc.add SchemaDoc.empty = normSchemaDoc cfg d := by
+    rw [foldl_add_lists]
+    simp [itemsOf, SchemaDoc.empty, List.filterMap_append, List.filterMap_map, Function.comp_def, getSchema,
+      getSchemaExt, getDirective, getDefinition, getExtension, filterMap_none']
+  rw [this]
+
+/-- the round trip for every document the parser returned -/
+theorem C13_format_roundtrip_parsed (src0 : Nat) (b0 : Bool) (inp : Bytes) (d : SchemaDoc)
+    (hp : parseSchemaSrc 0 src0 b0 inp = .ok d) (hd : FormattableSchema d) (src : Nat) (b : Bool) :
+    ∃ d', parseSchemaSrc 0 src b (fmtSchemaDoc cfg d) = .ok d' ∧
+      d'.erasePos = (setBuiltIn b (normSchemaDoc cfg d)).erasePos :=
+  C13_format_roundtrip hind d hd (C06_parse_printable src0 b0 inp d hp).1 src b
+
+end Bridge
+
+/-- non-vacuity of `FormattableSchema`: a schema definition, a directive definition with a described
+    argument, an object type with a field with arguments, an enum with a described value, a union,
+    an input object with a default value, an extension -/
+def C13_sampleDoc : SchemaDoc :=
+  { schema := [{ desc := [], dirs := [], opTypes := [{ op := str "query", type := str "Q", pos := Pos.zero }], pos := Pos.zero }],
+    schemaExt := [],
+    directives := [{ desc := str "a \"\"\" b", name := str "d",
+                     args := [{ desc := str "x", name := str "a", default := none, type := .named (str "Int") false Pos.zero,
+                                dirs := [], pos := Pos.zero }],
+                     locations := [str "FIELD", str "QUERY"], repeatable := true, pos := { Pos.zero with src := 1 } }],
+    definitions :=
+      [{ kind := .object, desc := str "  indented", name := str "Q", dirs := [], interfaces := [str "I", str "J"],
+         fields := [{ desc := [], name := str "f",
+                      args := [{ desc := [], name := str "a", default := some (.mk .int (str "1") .nil Pos.zero),
+                                 type := .named (str "Int") true Pos.zero, dirs := [], pos := Pos.zero }],
+                      default := none, type := .list (.named (str "E") false Pos.zero) true Pos.zero, dirs := [],
+                      pos := { Pos.zero with line := 3 } }],
+         types := [], enumValues := [], pos := Pos.zero, builtIn := false },
+       { kind := .enum, desc := [], name := str "E", dirs := [], interfaces := [], fields := [], types := [],
+         enumValues := [{ desc := str "v", name := str "A", dirs := [], pos := Pos.zero }], pos := Pos.zero, builtIn := false },
+       { kind := .union, desc := [], name := str "U", dirs := [], interfaces := [], fields := [], types := [str "Q", str "R"],
+         enumValues := [], pos := Pos.zero, builtIn := false },
+       { kind := .inputObject, desc := [], name := str "In", dirs := [], interfaces := [],
+         fields := [{ desc := [], name := str "x", args := [], default := some (.mk .block (str "b") .nil Pos.zero),
+                      type := .named (str "String") false Pos.zero, dirs := [], pos := { Pos.zero with line := 9 } }],
+         types := [], enumValues := [], pos := Pos.zero, builtIn := false }],
+    extensions :=
+      [{ kind := .scalar, desc := [], name := str "S", dirs := [{ name := str "d", args := [], pos := Pos.zero }],
+         interfaces := [], fields := [], types := [], enumValues := [], pos := Pos.zero, builtIn := false }] }
+
+example : FormattableSchema C13_sampleDoc := by decide
+
+/-- FINDING (pathological configuration): the hypothesis "indentation of spaces and tabs" cannot be
+    widened to all white space.  With `WithIndent("\n")` (or `"\r"`) an indented two-line description
+    `a⏎b` is written with an empty line between its lines and comes back as `a⏎⏎b`; with
+    `WithIndent(",")` the comma becomes part of the description.  (Go: `rtsd 0a,0,0,0` on
+    `type T { """⏎a⏎b⏎""" f: Int }` answers `tree-differs:DF-FL`; `09` and `2020` answer `ok`.) -/
+theorem C13_description_newline_indent_counterexample :
+    blockStringValue (descBody [10] [97, 10, 98]) = [97, 10, 10, 98] ∧
+    blockStringValue (descBody [44] [101]) = [44, 101, 10, 44] := by decide
